@@ -6,6 +6,7 @@ import (
 	"net/url"
 	"os"
 	"strconv"
+	"strings"
 	"sync"
 	"sync/atomic"
 	"time"
@@ -28,6 +29,8 @@ import (
 
 type raceDom struct{}
 
+var dbgNil, dbgQ int64
+
 func init() { Register("race", func() Domain { return raceDom{} }) }
 
 func (raceDom) Gen(r *gen.R, tier string, emit func(string)) {
@@ -37,6 +40,7 @@ func (raceDom) Gen(r *gen.R, tier string, emit func(string)) {
 	}
 	for i := 0; i < n; i++ {
 		emit(wire.Line("race", strconv.Itoa(1+r.Intn(4)), strconv.Itoa(r.Intn(1000000))))
+		emit(wire.Line("raceq", strconv.Itoa(2+r.Intn(3)), strconv.Itoa(r.Intn(1000000))))
 	}
 }
 
@@ -78,6 +82,20 @@ func raceScenario(workers int, seed uint64) string {
 		r.Event("poke", nil)
 		r.OK(scratch[id%ngroups])
 	}))
+	// a Parallel resource with query events: its request and expiry callbacks run on different workers
+	pqCallback := func(q res.QueryRequest) {
+		if q == nil {
+			atomic.AddInt64(&dbgNil, 1)
+			return
+		}
+		atomic.AddInt64(&dbgQ, 1)
+		time.Sleep(700 * time.Microsecond) // still running when the event expires on another worker
+		q.NotFound()
+	}
+	s.Handle("pq.$id", res.Parallel(true), res.Call("do", func(r res.CallRequest) {
+		r.QueryEvent(pqCallback)
+		r.OK(nil)
+	}))
 	s.Handle("p.$id", res.Parallel(true), res.GetResource(func(r res.GetRequest) { r.Model(map[string]int{"x": 1}) }))
 	s.Handle("m.$id", res.Model, store.Handler{Store: ms, Transformer: store.IDTransformer("id", nil)})
 	s.Handle("b.$id", res.Model, store.Handler{Store: bst, Transformer: store.IDTransformer("id", nil)})
@@ -87,6 +105,25 @@ func raceScenario(workers int, seed uint64) string {
 
 	for cycle := 0; cycle < 2; cycle++ {
 		conn := recconn.New()
+		// query requests for every announced query event, spread around its expiry (2 ms)
+		var qn int64
+		conn.OnPub = func(p recconn.Pub) {
+			if !strings.HasSuffix(p.Subject, ".query") || !strings.HasPrefix(p.Subject, "event.rs.") {
+				return
+			}
+			var ev struct {
+				Subject string `json:"subject"`
+			}
+			if json.Unmarshal(p.Data, &ev) != nil || ev.Subject == "" {
+				return
+			}
+			go func() {
+				for i := 0; i < 6; i++ {
+					time.Sleep(500 * time.Microsecond)
+					conn.Deliver(ev.Subject, fmt.Sprintf("_INBOX.q%d", atomic.AddInt64(&qn, 1)), []byte(`{"query":"a=1"}`))
+				}
+			}()
+		}
 		served := make(chan struct{})
 		s.SetOnServe(func(*res.Service) { close(served) })
 		done := make(chan error, 1)
@@ -103,7 +140,11 @@ func raceScenario(workers int, seed uint64) string {
 			rr := r.Fork()
 			go func() {
 				defer wg.Done()
-				defer func() { recover() }()
+				defer func() {
+					if e := recover(); e != nil && os.Getenv("VERIF_DEBUG") != "" {
+						fmt.Fprintln(os.Stderr, "spawn panic:", e)
+					}
+				}()
 				for i := 0; i < 400 && atomic.LoadInt32(&stop) == 0; i++ {
 					f(rr)
 				}
@@ -113,6 +154,15 @@ func raceScenario(workers int, seed uint64) string {
 		spawn(func(r *gen.R) {
 			n := atomic.AddInt64(&seq, 1)
 			conn.Deliver(fmt.Sprintf("call.rs.c.%d.do", r.Intn(ngroups)), fmt.Sprintf("_INBOX.r%d", n), nil)
+		})
+		spawn(func(r *gen.R) {
+			n := atomic.AddInt64(&seq, 1)
+			if r.Bool() {
+				conn.Deliver(fmt.Sprintf("call.rs.pq.%d.do", r.Intn(2)), fmt.Sprintf("_INBOX.r%d", n), nil)
+			} else {
+				s.With("rs.pq."+strconv.Itoa(r.Intn(2)), func(rr res.Resource) { rr.QueryEvent(pqCallback) })
+			}
+			time.Sleep(300 * time.Microsecond)
 		})
 		spawn(func(r *gen.R) {
 			n := atomic.AddInt64(&seq, 1)
@@ -192,16 +242,135 @@ func raceScenario(workers int, seed uint64) string {
 		}
 		qs.Flush()
 	}
+	if os.Getenv("VERIF_DEBUG") != "" {
+		return fmt.Sprintf("done nil=%d q=%d", atomic.LoadInt64(&dbgNil), atomic.LoadInt64(&dbgQ))
+	}
+	return "done"
+}
+
+// raceQScenario: query events under light load, so that their callbacks really run:
+// a Parallel resource (request callbacks and the expiry run on different workers and may
+// overlap) and a grouped one, query events created from handlers and from foreign
+// goroutines through With, query requests spread around the expiry, and a Shutdown that
+// overlaps all of it.
+func raceQScenario(workers int, seed uint64) string {
+	r := gen.New(seed)
+	s := res.NewService("rq")
+	s.SetLogger(logger.NewMemLogger().SetTrace(true))
+	s.SetWorkerCount(workers)
+	s.SetQueryEventDuration(2 * time.Millisecond)
+	var nilCalls, reqCalls int64
+	gscratch := 0 // confined to group "g"
+	pqCallback := func(q res.QueryRequest) {
+		if q == nil {
+			atomic.AddInt64(&nilCalls, 1)
+			return
+		}
+		atomic.AddInt64(&reqCalls, 1)
+		time.Sleep(700 * time.Microsecond) // still running when the event expires on another worker
+		q.NotFound()
+	}
+	gqCallback := func(q res.QueryRequest) {
+		gscratch++
+		if q != nil {
+			q.Model(map[string]int{"n": 1})
+		}
+	}
+	s.Handle("pq.$id", res.Parallel(true), res.Call("do", func(r res.CallRequest) {
+		r.QueryEvent(pqCallback)
+		r.OK(nil)
+	}))
+	s.Handle("gq.$id", res.Group("g"), res.Call("do", func(r res.CallRequest) {
+		gscratch++
+		r.QueryEvent(gqCallback)
+		r.OK(nil)
+	}))
+	for cycle := 0; cycle < 2; cycle++ {
+		conn := recconn.New()
+		var qn int64
+		conn.OnPub = func(p recconn.Pub) {
+			if !strings.HasSuffix(p.Subject, ".query") || !strings.HasPrefix(p.Subject, "event.rq.") {
+				return
+			}
+			var ev struct {
+				Subject string `json:"subject"`
+			}
+			if json.Unmarshal(p.Data, &ev) != nil || ev.Subject == "" {
+				return
+			}
+			go func() {
+				for i := 0; i < 6; i++ {
+					time.Sleep(450 * time.Microsecond)
+					conn.Deliver(ev.Subject, fmt.Sprintf("_INBOX.q%d", atomic.AddInt64(&qn, 1)), []byte(`{"query":"a=1"}`))
+				}
+			}()
+		}
+		served := make(chan struct{})
+		s.SetOnServe(func(*res.Service) { close(served) })
+		done := make(chan error, 1)
+		go func() { done <- s.Serve(conn) }()
+		select {
+		case <-served:
+		case <-time.After(5 * time.Second):
+			return "serve-hung"
+		}
+		var stop int32
+		var wg sync.WaitGroup
+		spawn := func(f func(r *gen.R)) {
+			wg.Add(1)
+			rr := r.Fork()
+			go func() {
+				defer wg.Done()
+				defer func() { recover() }()
+				for i := 0; i < 200 && atomic.LoadInt32(&stop) == 0; i++ {
+					f(rr)
+					time.Sleep(300 * time.Microsecond)
+				}
+			}()
+		}
+		var seq int64
+		spawn(func(r *gen.R) {
+			n := atomic.AddInt64(&seq, 1)
+			conn.Deliver(fmt.Sprintf("call.rq.%s.%d.do", r.Pick([]string{"pq", "gq"}), r.Intn(2)), fmt.Sprintf("_INBOX.r%d", n), nil)
+		})
+		spawn(func(r *gen.R) {
+			s.With("rq.pq."+strconv.Itoa(r.Intn(2)), func(rr res.Resource) { rr.QueryEvent(pqCallback) })
+		})
+		spawn(func(r *gen.R) {
+			s.With("rq.gq."+strconv.Itoa(r.Intn(2)), func(rr res.Resource) { gscratch++; rr.QueryEvent(gqCallback) })
+		})
+		time.Sleep(time.Duration(6+r.Intn(10)) * time.Millisecond)
+		sd := make(chan struct{})
+		go func() { s.Shutdown(); close(sd) }()
+		select {
+		case <-sd:
+		case <-time.After(5 * time.Second):
+			return "shutdown-hung"
+		}
+		atomic.StoreInt32(&stop, 1)
+		wg.Wait()
+		select {
+		case <-done:
+		case <-time.After(5 * time.Second):
+			return "serve-did-not-return"
+		}
+	}
+	if atomic.LoadInt64(&reqCalls) == 0 || atomic.LoadInt64(&nilCalls) == 0 {
+		return "done-idle" // the scenario did not exercise what it is for
+	}
 	return "done"
 }
 
 func (raceDom) Exec(a []string) string {
 	return Safe(func() string {
-		if len(a) < 3 || a[0] != "race" {
+		if len(a) < 3 || (a[0] != "race" && a[0] != "raceq") {
 			return "bad-op"
 		}
 		w, _ := strconv.Atoi(a[1])
 		seed, _ := strconv.Atoi(a[2])
+		if a[0] == "raceq" {
+			return raceQScenario(w, uint64(seed))
+		}
 		return raceScenario(w, uint64(seed))
 	})
 }
